@@ -862,3 +862,7 @@ def replay(run, data) -> None:
         check_decay_table(run)
     run.case('pad', True)
     run.case('pad2', True)
+
+
+# (kept at the end of the file so that the text above stays the description the check was first built to)
+RULE += ' ' + 'Later additions: the visgroup tree of the FGD given to export() is preserved by it; every entity of the bundled database reaches _CBaseEntity_; definitions returned by engine_def() are edited (everything mutable, bases included) and looked up again.'
